@@ -358,7 +358,9 @@ class C20(Prop):
             targets.append({"p": ids[n], "tmp": ids[n + ".doctrans.tmp"], "a": new[:h], "b": new[h:]})
         for rrun in obs["runs"]:
             k, i = rrun["fault"]
-            fault = [k, 0] if i == "render" else [k, i]
+            if i == "render":
+                continue  # rendering calls do not map 1:1 onto writes (up-to-date files are rendered, not written): predicate only
+            fault = [k, i]
             op = {"op": "fs_targets", "files": files, "targets": targets, "fault": fault}
             impl = {"ok": sorted([ids.get(n, -1), rrun["after"].get(n)] for n in set(names) | set(rrun["after"]))}
             res.append(("fs", op, impl))
